@@ -133,6 +133,40 @@ pub fn run(thorough: bool) -> Vec<Part> {
             part.violations.push(v.clone());
         }
     }
+    // (a0) the limit is changed by the application in the middle of the stream: whatever header
+    // block completes after the change is judged by the new limit (every position of the change)
+    {
+        let mut runs = 0u64;
+        for (l0, l1) in [(51200usize, 4usize), (4, 51200), (5, 4), (4, 5), (6, 5)] {
+            let mut st = b"PUT /a HTTP/1.1\r\nX-a: 1\r\nContent-Length: 5\r\n\r\nhelloPUT /b HTTP/1.0\r\nContent-Length: 5\r\n\r\nworld".to_vec();
+            st.extend_from_slice(&tail);
+            for c in 0..st.len() {
+                let mut cfg = Cfg::base("C04", &format!("limit {} -> {} after {} bytes", l0, l1, c), vec![], l0);
+                cfg.stream = Some(st.clone());
+                cfg.empty_reads = false;
+                let mut e = crate::connx::Exec::new(&cfg, false);
+                if c > 0 {
+                    e.step(crate::connx::Act::Read(c as u16, 0));
+                }
+                if e.violation.is_none() && !e.terminal {
+                    e.set_limit(l1);
+                    let mut guard = 0;
+                    while e.violation.is_none() && !e.terminal && !e.queue.is_empty() && guard < 64 {
+                        e.step(crate::connx::Act::Read(crate::connx::KMASK, 0));
+                        guard += 1;
+                    }
+                }
+                runs += 1;
+                if let Some((sig, d)) = e.finish_fds() {
+                    part.violations.push(crate::util::Violation { signature: sig, detail: format!("[limit changed from {} to {} after {} stream bytes] {}", l0, l1, c, d), replay: json!({"engine": "c04limit", "l0": l0, "l1": l1, "at": c}) });
+                    break;
+                }
+            }
+        }
+        part.add("transitions", runs);
+        part.add("traces_validated_against_impl", runs);
+        part.set("limit_changed_mid_stream_runs", json!(runs));
+    }
     part.set("payload_graphs_all_segmentations", json!(graphs));
     // (a2) stateless schedules for every pair
     let t = par_enum(
